@@ -21,7 +21,7 @@ def foreign_element(r, x, name_class):
         name = r.choice(STD_NAMES)
     else:
         name = "f" + "".join(r.choice("abcdefXYZ09_") for _ in range(r.randint(1, 8)))
-    kind = r.choice(["string", "float", "integer", "structure", "blob-like", "vector", "nested-standard"])
+    kind = r.choice(["string", "float", "integer", "structure", "blob-like", "vector", "nested-standard", "many-siblings"])
     # three ways to put an element into a foreign namespace: prefix declared on the root, prefix declared
     # on the element itself, or no prefix at all with the default namespace redeclared on the element
     form = r.choice(["root-prefix", "root-prefix", "local-prefix", "default-ns-redeclared"])
@@ -44,6 +44,19 @@ def foreign_element(r, x, name_class):
         x.leaf(tag, ns_attr + [("type", "Integer")], r.choice(["7", "-9", "999999999999"]))
     elif kind == "blob-like":
         x.leaf(tag, ns_attr + [("type", "Blob"), ("fileOffset", r.choice([0, 48, 1020, 5])), ("length", r.choice([0, 16, 10 ** 9]))], "")
+    elif kind == "many-siblings":
+        # hundreds of flat foreign elements whose attribute values contain markup characters that are legal
+        # inside a quoted value ('>' raw, '/>' , the other kind of quote); both empty-element forms
+        n = r.choice([3, 40, 257, 300, 520])
+        for k in range(n):
+            val = r.choice(["intensity > 5", "a/>b", "x>y>z", ">", "/>", "-->", "]]>", "1 > 0 and 2 > 1"])
+            q = '"' if x.lex["quote"] != "single" else "'"
+            other = "'" if q == '"' else '"'
+            val = val + (other if k % 7 == 0 else "")
+            if k % 2 == 0:
+                x.out.append("<fx:%s type=%sString%s expr=%s%s%s/>" % (name, q, q, q, val, q))
+            else:
+                x.out.append("<fx:%s expr=%s%s%s type=%sInteger%s>7</fx:%s>" % (name, q, val, q, q, q, name))
     elif kind == "vector":
         x.open(tag, [("type", "Vector"), ("allowHeterogeneousChildren", 1)])
         for _ in range(r.randint(0, 2)):
@@ -119,7 +132,7 @@ def make_pair(seed, i):
         if attr_budget[0] > 0 and plan_r.random() < 0.08:
             attr_budget[0] -= 1
             nm = plan_r.choice(STD_ATTRS) if plan_r.random() < 0.7 else "note" + str(plan_r.randrange(100))
-            val = plan_r.choice(["0", "3", "48", "1020", "Blob", "Integer", "x"])
+            val = plan_r.choice(["0", "3", "48", "1020", "Blob", "Integer", "x", "a>b", "/>", "x > 1"])
             where = plan_r.choice(["front", "behind"])
             items = ([("fx:" + nm, val)] + items) if where == "front" else (items + [("fx:" + nm, val)])
             log.append({"site": "attribute-on-standard-element", "name_class": "standard-name" if nm in STD_ATTRS else "random-name", "name": nm, "kind": "attribute-" + where, "form": "root-prefix"})
